@@ -56,6 +56,8 @@ pub enum Valid {
     None,
     /// current ledger + d
     Rel(i8),
+    /// ledger 0 (a sentinel-like value: it must be treated as the past ledger it is, not as "no expiration")
+    Zero,
 }
 
 #[derive(Clone, Debug, Serialize, Deserialize)]
@@ -150,6 +152,7 @@ fn valid_strategy() -> BoxedStrategy<Valid> {
         2 => Just(Valid::Rel(0)),
         4 => (1i8..=4).prop_map(Valid::Rel),
         1 => (-2i8..=-1).prop_map(Valid::Rel),
+        1 => Just(Valid::Zero),
     ]
     .boxed()
 }
@@ -559,6 +562,7 @@ fn resolve_valid(v: Valid, now: u32) -> Option<u32> {
     match v {
         Valid::None => None,
         Valid::Rel(d) => Some((now as i64 + d as i64).max(0) as u32),
+        Valid::Zero => Some(0),
     }
 }
 
